@@ -10,6 +10,22 @@ NOTE = ("Trusted: rustc nightly's type-checked MIR (mir-opt-level=0, overflow ch
         "wrapper summaries; imprecise origins make a rule silent, never alarming.")
 
 CHECKS = {
+    "C01": dict(
+        text="Structural necessary conditions only: every write of the ring positions is dominated by the ok-edge of a "
+             "real comparison of the requested count with the fill level (oversize commit/consume refused before any "
+             "state changes); the constructor gates on size % element size; the single raw slice is bounded by the "
+             "mapping and windows come from checked indexing. Data identity/order/wrap arithmetic are not decided.",
+        design="§4 C01", technique="MIR dominance analysis of guards over state writes"),
+    "C17": dict(
+        text="Abstract interpretation of the OpenOptions builder per `match mode` arm against the documented table "
+             "(both sinks must agree), and must-pass analysis: stream consumption is acknowledged only behind the Ok "
+             "edges of write_all then flush on the same writer. Decides the property up to the trusted OS semantics.",
+        design="§4 C17", technique="abstract interpretation of builder flags + must-pass/dominance on MIR"),
+    "C18": dict(
+        text="Who-may-call, typestate and ownership rules on MIR: mmap/munmap only inside Map; every successful mmap is "
+             "owned by a Map or unmapped on every path; Drop unmaps (base,len); Circ::new shrinks the first Map and "
+             "owns both; no leak primitives; MAP_SHARED constant flags, offset 0; constructor rejects bad element sizes.",
+        design="§4 C18", technique="call-graph who-may-call + typestate path rules on MIR"),
     "C04": dict(
         text="Static ordering/dominance analysis on MIR of the stream ends: the peer-liveness read precedes the final "
              "buffered-amount read on every path to an end-of-stream verdict (or happens under the still-held data "
